@@ -143,3 +143,116 @@ fn report(name: &str, c: i32) {
 #[test] fn c16_native_readv_total() { report("C16 vectored total after progress", in_child(scenario_readv_total)); }
 #[test] fn c16_native_readv_retry_offset() { report("C16/C17 retry inside an iovec", in_child(scenario_readv_retry_offset)); }
 #[test] fn c16_native_recvmsg_iovlen() { report("C17 msg_iovlen", in_child(scenario_recvmsg_iovlen)); }
+
+// ------------------------------------------------------------------------------------------------------------
+// Decisive replay of a verifier counterexample: the same scripted kernel as harness/C16/model.rs, natively, through
+// the crate's public entry points (the `fn_ptr` argument replaces the raw system call, everything above it is the
+// real code with its real dependencies). VERIF_C16_SPEC = "<op> <nonblocking 0|1> <len0> <len1> <answers...>"
+// with op in readv|writev|recvmsg|sendmsg|read|write and each answer one of: again, intr, hard, <count>.
+mod script {
+    use super::*;
+    pub static mut ANSWERS: Vec<i64> = Vec::new(); // -11 again, -4 intr, -104 hard, >= 0 count
+    pub static mut NEXT: usize = 0;
+    pub static mut MOVED: usize = 0;
+    pub static mut IS_READ: bool = false;
+    pub static mut BUFS: [[u8; 8]; 2] = [[0xEE; 8]; 2];
+    pub static mut LENS: [usize; 2] = [0; 2];
+    pub static mut BAD: Vec<String> = Vec::new();
+    pub fn sb(p: usize) -> u8 { (p + 1) as u8 }
+    unsafe fn abs_pos(a: usize, l: usize) -> Option<usize> {
+        let (b0, b1) = (BUFS[0].as_ptr() as usize, BUFS[1].as_ptr() as usize);
+        if a >= b0 && a + l <= b0 + LENS[0] { return Some(a - b0); }
+        if a >= b1 && a + l <= b1 + LENS[1] { return Some(LENS[0] + (a - b1)); }
+        None
+    }
+    pub unsafe fn kernel(iov: *const libc::iovec, cnt: usize) -> isize {
+        let mut cursor = MOVED;
+        let mut room = 0;
+        if cnt > 2 { BAD.push(format!("C17: {cnt} elements handed down, the caller has 2")); return -1; }
+        for k in 0..cnt {
+            let e = *iov.add(k);
+            if e.iov_len > 0 {
+                match abs_pos(e.iov_base as usize, e.iov_len) {
+                    Some(p) if p >= cursor => cursor = p + e.iov_len,
+                    Some(p) => BAD.push(format!("C17: element {k} covers stream position {p}, already transferred up to {cursor}")),
+                    None => { BAD.push(format!("C17: element {k} lies outside the caller's buffers")); return -1; }
+                }
+                room += e.iov_len;
+            }
+        }
+        let a = if NEXT < ANSWERS.len() { ANSWERS[NEXT] } else { -11 };
+        NEXT += 1;
+        if a < 0 { *libc::__errno_location() = (-a) as c_int; return -1; }
+        let n = (a as usize).min(room);
+        let (mut left, mut pos) = (n, MOVED);
+        for j in 0..cnt {
+            let e = *iov.add(j);
+            let take = left.min(e.iov_len);
+            for b in 0..take {
+                let p = (e.iov_base as *mut u8).add(b);
+                if IS_READ { *p = sb(pos); } else if *p != sb(pos) { BAD.push(format!("C16: byte handed to the kernel at stream position {pos} is {} instead of {}", *p, sb(pos))); }
+                pos += 1;
+            }
+            left -= take;
+        }
+        MOVED += n;
+        n as isize
+    }
+    pub extern "C" fn readv(_fd: c_int, iov: *const libc::iovec, cnt: c_int) -> ssize_t { unsafe { kernel(iov, cnt as usize) } }
+    pub extern "C" fn writev(_fd: c_int, iov: *const libc::iovec, cnt: c_int) -> ssize_t { unsafe { kernel(iov, cnt as usize) } }
+    pub extern "C" fn recvmsg(_fd: c_int, m: *mut msghdr, _f: c_int) -> ssize_t { unsafe { kernel((*m).msg_iov, (*m).msg_iovlen as usize) } }
+    pub extern "C" fn sendmsg(_fd: c_int, m: *const msghdr, _f: c_int) -> ssize_t { unsafe { kernel((*m).msg_iov, (*m).msg_iovlen as usize) } }
+    pub extern "C" fn read(_fd: c_int, buf: *mut c_void, len: usize) -> ssize_t { let e = libc::iovec { iov_base: buf, iov_len: len }; unsafe { kernel(&e, 1) } }
+    pub extern "C" fn write(_fd: c_int, buf: *const c_void, len: usize) -> ssize_t { let e = libc::iovec { iov_base: buf.cast_mut(), iov_len: len }; unsafe { kernel(&e, 1) } }
+}
+
+fn scenario_script() -> i32 {
+    use script::*;
+    init();
+    let spec = std::env::var("VERIF_C16_SPEC").unwrap_or_default();
+    let w: Vec<&str> = spec.split_whitespace().collect();
+    if w.len() < 4 { println!("VERIF-REPLAY bad spec"); return 9; }
+    let (op, nb) = (w[0], w[1] == "1");
+    unsafe {
+        LENS = [w[2].parse().unwrap_or(0), w[3].parse().unwrap_or(0)];
+        ANSWERS = w[4..].iter().map(|a| match *a { "again" => -11, "intr" => -4, "hard" => -104, n => n.parse().unwrap_or(0) }).collect();
+        IS_READ = matches!(op, "readv" | "recvmsg" | "read");
+        let mut p = 0;
+        for j in 0..2 { for b in 0..8 { BUFS[j][b] = if IS_READ || b >= LENS[j] { 0xEE } else { let v = sb(p); p += 1; v }; } }
+        let (a, _b) = pair();
+        rcvtimeo(a, 60);
+        let t = libc::timeval { tv_sec: 0, tv_usec: 60_000 };
+        libc::setsockopt(a, libc::SOL_SOCKET, libc::SO_SNDTIMEO, std::ptr::addr_of!(t).cast(), 16);
+        if nb { let fl = libc::fcntl(a, libc::F_GETFL); libc::fcntl(a, libc::F_SETFL, fl | libc::O_NONBLOCK); }
+        let mut iov = [libc::iovec { iov_base: BUFS[0].as_mut_ptr().cast(), iov_len: LENS[0] }, libc::iovec { iov_base: BUFS[1].as_mut_ptr().cast(), iov_len: LENS[1] }];
+        let mut m: msghdr = std::mem::zeroed();
+        m.msg_iov = iov.as_mut_ptr();
+        m.msg_iovlen = 2;
+        *libc::__errno_location() = 0;
+        let r: isize = match op {
+            "readv" => crate::syscall::readv(Some(&(script::readv as extern "C" fn(c_int, *const libc::iovec, c_int) -> ssize_t)), a, iov.as_ptr(), 2),
+            "writev" => crate::syscall::writev(Some(&(script::writev as extern "C" fn(c_int, *const libc::iovec, c_int) -> ssize_t)), a, iov.as_ptr(), 2),
+            "recvmsg" => crate::syscall::recvmsg(Some(&(script::recvmsg as extern "C" fn(c_int, *mut msghdr, c_int) -> ssize_t)), a, &raw mut m, 0),
+            "sendmsg" => crate::syscall::sendmsg(Some(&(script::sendmsg as extern "C" fn(c_int, *const msghdr, c_int) -> ssize_t)), a, &raw const m, 0),
+            "read" => crate::syscall::read(Some(&(script::read as extern "C" fn(c_int, *mut c_void, usize) -> ssize_t)), a, BUFS[0].as_mut_ptr().cast(), LENS[0]),
+            _ => crate::syscall::write(Some(&(script::write as extern "C" fn(c_int, *const c_void, usize) -> ssize_t)), a, BUFS[0].as_ptr().cast(), LENS[0]),
+        };
+        let e = *libc::__errno_location();
+        let still_nb = libc::fcntl(a, libc::F_GETFL) & libc::O_NONBLOCK != 0;
+        if still_nb != nb { BAD.push(format!("C18: O_NONBLOCK is {still_nb} on return, was {nb} on entry")); }
+        if r >= 0 && r as usize != MOVED { BAD.push(format!("C16: returned {r}, the kernel moved {MOVED}")); }
+        if r < 0 && MOVED > 0 { BAD.push(format!("C16: returned {r} (errno {e}) although the kernel moved {MOVED}")); }
+        if IS_READ {
+            let mut p = 0;
+            for j in 0..2 { for b in 0..8 {
+                let want = if b < LENS[j] && p < MOVED { sb(p) } else { 0xEE };
+                if b < LENS[j] { p += 1; }
+                if BUFS[j][b] != want { BAD.push(format!("C16: caller buffer {j}[{b}] holds {} instead of {want}", BUFS[j][b])); }
+            } }
+        }
+        println!("VERIF-REPLAY script `{spec}`: returned {r} errno {e}, kernel calls {NEXT}, moved {MOVED}");
+        for b in BAD.iter() { println!("VERIF-REPLAY finding: {b}"); }
+        if BAD.is_empty() { 0 } else { 2 }
+    }
+}
+#[test] fn c16_native_script() { report("scripted kernel", in_child(scenario_script)); }
